@@ -674,6 +674,24 @@ M2D_FORMS = {
 }
 
 
+_VS_RAISE = ("    raise ValueError(f'Input parameter `style` must be of type {self._style_class}.\\n"
+             "Instead received type {type(val)}')\n")
+VALIDATE_STYLE_FORMS = {
+    "takeover": ("val = {} if val is None else val\n"
+                 "style = self.style\n"
+                 "if isinstance(val, dict):\n"
+                 "    style.update(val)\n"
+                 "elif isinstance(val, self._style_class):\n"
+                 "    style = val.copy()\n"
+                 "else:\n" + _VS_RAISE + "return style"),
+    "ignore": ("val = {} if val is None else val\n"
+               "style = self.style\n"
+               "if isinstance(val, dict):\n"
+               "    style.update(val)\n"
+               "elif not isinstance(val, self._style_class):\n" + _VS_RAISE + "return style"),
+}
+
+
 def recursion_forwards(fn):
     """get_flatten_objects_properties_recursive: get_style(subobj, default_settings, **style_kwargs) and the
     recursive call for collection children passes style_kwargs=style_kwargs"""
@@ -762,11 +780,15 @@ def collect(repo):
             if not issubclass(famcls[b], famcls[a]):
                 fail(f"families {a}/{b} of {cname} are not ordered by the subclass relation")
         spec_rows.append((cname, order))
+    if body_text(strip_doc(fn_ast(basegeo.style.fset).body)) != "self._style = self._validate_style(val)":
+        fail("BaseGeo.style setter is not `self._style = self._validate_style(val)`")
     flags = {
         "reset_mode": whole_body(dcls.DefaultSettings.reset, RESET_FORMS, "DefaultSettings.reset"),
         "ctor_copies_style": whole_body(basegeo._process_style_kwargs, PROCESS_FORMS,   # pylint: disable=protected-access
                                         "BaseGeo._process_style_kwargs") == "copy",
         "magic_merge_fresh": whole_body(dutil.magic_to_dict, M2D_FORMS, "magic_to_dict") == "fresh",
+        "style_setter_takes_instance": whole_body(basegeo._validate_style, VALIDATE_STYLE_FORMS,   # pylint: disable=protected-access
+                                                  "BaseGeo._validate_style") == "takeover",
         "recursion_forwards_style_kwargs": recursion_forwards(
             mods["magpylib._src.display.traces_utility"].get_flatten_objects_properties_recursive),
     }
@@ -827,6 +849,7 @@ def generate(repo):
     out.append(f"Definition reset_mode : rmode := {fl['reset_mode']}.")
     out.append(f"Definition ctor_copies_style : bool := {b(fl['ctor_copies_style'])}.")
     out.append(f"Definition magic_merge_fresh : bool := {b(fl['magic_merge_fresh'])}.")
+    out.append(f"Definition style_setter_takes_instance : bool := {b(fl['style_setter_takes_instance'])}.")
     out.append(f"Definition recursion_forwards_style_kwargs : bool := {b(fl['recursion_forwards_style_kwargs'])}.\n")
     out.append("Definition colors : color_table :=\n  "
                + clist([f"({cval(v)}, {coval(r)})" for v, r in g["colors"]], ";\n   ") + ".\n")
